@@ -84,37 +84,45 @@ structure DVState where
   stack : List Dec := []      -- call_stack, most recent first
 deriving Repr
 
-/-- The main loop of `_get_digital_value`: `i` = index of `c`, `prev` = previous character (0 at the start). -/
-def dvLoop (p : Nat) (tab : DigitTab) (multiDec fraction : Bool) (dec non : Nat) (hasSingle : Bool) (len : Nat) :
+/-- `len(s) - len(s.lstrip('- '))`: length of the leading run of signs / spaces. -/
+def leadLen : Str → Nat
+  | c :: r => if c == 45 || c == 32 then leadLen r + 1 else 0
+  | [] => 0
+
+/-- The main loop of `_get_digital_value`: `i` = index of `c`, `prev` = previous character (0 at the start),
+`lead` = offset of the first character after a leading sign (`distance_start = i - lead`; where `i < lead` the
+character is a sign or a space, never a separator that the multi-decimal rule concerns, so truncated subtraction
+gives the same answers as Python's negative distance). -/
+def dvLoop (p : Nat) (tab : DigitTab) (multiDec fraction : Bool) (dec non : Nat) (hasSingle : Bool) (len lead : Nat) :
     Str → Nat → Nat → DVState → Except Err DVState
   | [], _, _, st => .ok st
   | c :: r, i, prev, st =>
-    let skippable := skipNonDecimal multiDec c (len - i) i hasSingle prev non
-    if !fraction && (c == 32 || c == NBSP || skippable) then dvLoop p tab multiDec fraction dec non hasSingle len r (i + 1) c st
+    let skippable := skipNonDecimal multiDec c (len - i) (i - lead) hasSingle prev non
+    if !fraction && (c == 32 || c == NBSP || skippable) then dvLoop p tab multiDec fraction dec non hasSingle len lead r (i + 1) c st
     else if c == 32 || c == 47 then
-      dvLoop p tab multiDec fraction dec non hasSingle len r (i + 1) c { st with stack := st.tmp :: st.stack, tmp := Dec.zero }
+      dvLoop p tab multiDec fraction dec non hasSingle len lead r (i + 1) c { st with stack := st.tmp :: st.stack, tmp := Dec.zero }
     else if tab.isDigit c then
       match tab.value c with
       | none => .error .invalid
       | some d =>
         if st.hasDec then
-          dvLoop p tab multiDec fraction dec non hasSingle len r (i + 1) c
+          dvLoop p tab multiDec fraction dec non hasSingle len lead r (i + 1) c
             { st with tmp := Dec.add p st.tmp (Dec.mul p st.scale (Dec.ofNat d)),
                       scale := Dec.mul p st.scale Dec.pointOne }
         else
-          dvLoop p tab multiDec fraction dec non hasSingle len r (i + 1) c
+          dvLoop p tab multiDec fraction dec non hasSingle len lead r (i + 1) c
             { st with tmp := Dec.add p (Dec.mul p st.tmp st.scale) (Dec.ofNat d) }
     else if c == dec || (!skippable && c == non) then
-      dvLoop p tab multiDec fraction dec non hasSingle len r (i + 1) c { st with hasDec := true, scale := Dec.pointOne }
+      dvLoop p tab multiDec fraction dec non hasSingle len lead r (i + 1) c { st with hasDec := true, scale := Dec.pointOne }
     else if c == 45 then
-      dvLoop p tab multiDec fraction dec non hasSingle len r (i + 1) c { st with negative := true }
-    else dvLoop p tab multiDec fraction dec non hasSingle len r (i + 1) c st
+      dvLoop p tab multiDec fraction dec non hasSingle len lead r (i + 1) c { st with negative := true }
+    else dvLoop p tab multiDec fraction dec non hasSingle len lead r (i + 1) c st
 
 /-- `_get_digital_value(digits_str, power)` under `@precision(prec=p)`. -/
 def digitalValue (p : Nat) (tab : DigitTab) (c : SepCfg) (s : Str) (power : Nat) : Except Err Dec := do
   let fraction := s.contains 47
   let (dec, non, hasSingle) := effectiveSeps c s
-  let st ← dvLoop p tab c.multiDec fraction dec non hasSingle s.length s 0 0 {}
+  let st ← dvLoop p tab c.multiDec fraction dec non hasSingle s.length (leadLen s) s 0 0 {}
   let stack := st.tmp :: st.stack                       -- call_stack.append(tmp); head = last pushed
   let (cal, rest) ←
     if fraction then
